@@ -4,11 +4,12 @@ From VQ Require Import Model.Inventory.
 From VQ.Gen Require Import inv_lq.
 Import ListNotations.
 Open Scope string_scope.
-Lemma pin_inv_lq : inv_lq =
+Definition pinned_inv_lq : list (string * kind * bool) :=
   [("_basis", Buffer, false);
    ("_levels", Buffer, false);
    ("commitment_loss_weight", Buffer, false);
    ("implicit_codebook", Buffer, false);
    ("quantization_loss_weight", Buffer, false);
    ("values_per_latent", Param, true)].
+Lemma pin_inv_lq : inv_lq = pinned_inv_lq.
 Proof. reflexivity. Qed.
